@@ -480,7 +480,8 @@ func (c *Ctx) macSpanRules(r *Report, prefix string, a *ikeAnchors, receive bool
 		}
 	}
 	t := c.roleFieldTable(ci)
-	r.Check(okW && nW == 2 && t.found, rule, "ike.calculateIntegrity: HMAC input", c.Pos(ci.Pos()), "each role arm writes exactly the unsliced data parameter into the hash (typestate Reset-Write-Sum is C17's rule)", fmt.Sprintf("the data written into the hash is not exactly the data parameter (%d Write calls)", nW))
+	// one Write per role arm, or one shared Write on the object the role selected
+	r.Check(okW && nW >= 1 && nW <= 2 && t.found, rule, "ike.calculateIntegrity: HMAC input", c.Pos(ci.Pos()), "every hash Write writes exactly the unsliced data parameter (typestate Reset-Write-Sum is C17's rule)", fmt.Sprintf("the data written into the hash is not exactly the data parameter (%d Write calls)", nW))
 	if !receive {
 		return
 	}
